@@ -38,9 +38,14 @@ def env0 : Env :=
 theorem env0_ok : env0.HeurOk ∧ env0.CoerceOk :=
   ⟨fun _ _ h => by simp [env0] at h, fun ctx old _ h => by simp [env0, h]⟩
 
+/-- what the CLI runs: atomic configuration present (variant table from `case_model.rs`), plural variants off -/
 def cfg0 (opts : StyleOpts) (search replace : Bytes) : Cfg :=
   { A := A, env := env0, opts := opts, plurals := false, sing := fun _ => none, plur := fun _ => none,
-    search := search, replace := replace }
+    search := search, replace := replace, cliPath := true }
+
+/-- the same call through the core API without atomic configuration (the scanner's own variant loop) -/
+def cfgApi (opts : StyleOpts) (search replace : Bytes) : Cfg :=
+  { cfg0 opts search replace with cliPath := false }
 
 -- ══ clause 3: ambiguous occurrences ═══════════════════════════════════════════════════════════════════════════
 
@@ -204,51 +209,18 @@ structure Guard (cfg : Cfg) (styles : List Style) (st : Style) : Prop where
   no_plurals : cfg.plurals = false
   coerce_ok : cfg.env.CoerceOk
 
-theorem same_style_partial {cfg : Cfg} (hA : AcrOk cfg.A) (hS : AcrStable cfg.A) {ws_s ws_r : List Bytes}
-    {sst rst st : Style} {styles : List Style} {d₁ d₂ : Bytes}
+/-- the pipeline on `d₁ ++ x ++ d₂` for ANY variant map whose keys start and end with a letter, which has the key
+    `x = render st ws_s` and returns `render st ws_r` for it -/
+theorem same_style_of_map {cfg : Cfg} {ws_s ws_r : List Bytes} {st : Style} {d₁ d₂ : Bytes}
     (h2 : 2 ≤ ws_s.length) (hws : Words ws_s) (hwr : Words ws_r) (hrne : ws_r ≠ [])
-    (hNs : Neutral cfg.A ws_s) (hNr : Neutral cfg.A ws_r) (hsst : sst ∈ V12) (hrst : rst ∈ V12)
-    (hUs : sst ∈ upperStyles → UpperSafe cfg.A ws_s) (hUr : rst ∈ upperStyles → UpperSafe cfg.A ws_r)
-    (hsearch : cfg.search = toStyle cfg.A ws_s sst) (hreplace : cfg.replace = toStyle cfg.A ws_r rst)
-    (g : Guard cfg styles st) (h1 : NeutralDelim d₁) (hd2 : NeutralDelim d₂)
+    (hskip : skipExact cfg.A cfg.search (stylesSlice cfg.opts) = false) (hvis : st ∈ V12)
+    (hun : keyUnambiguousByTable st = true) (hco : cfg.env.CoerceOk)
+    (hxk : toStyle cfg.A ws_s st ∈ cfg.vmap.keys) (hends : ∀ k ∈ cfg.vmap.keys, Ends k)
+    (hget : cfg.vmap.get (toStyle cfg.A ws_s st) = some (toStyle cfg.A ws_r st))
+    (h1 : NeutralDelim d₁) (hd2 : NeutralDelim d₂)
     (hcomp : cfg.env.compound (d₁ ++ toStyle cfg.A ws_s st ++ d₂) = []) :
     rewriteLine cfg (d₁ ++ toStyle cfg.A ws_s st ++ d₂) = some (d₁ ++ toStyle cfg.A ws_r st ++ d₂) := by
   have hsne : ws_s ≠ [] := ne_nil_of_two h2
-  -- the variant map
-  have hins : variantInserts cfg.A (some styles) false cfg.sing cfg.plur cfg.search cfg.replace =
-      styles.map (fun st' => (toStyle cfg.A ws_s st', some st', toStyle cfg.A ws_r st')) := by
-    rw [hsearch, hreplace]
-    exact variantInserts_words hA hS hws hwr hNs hNr hsst hrst hUs hUr styles _ _
-  have hvm : cfg.vmap = (styles.map (fun st' => (toStyle cfg.A ws_s st', some st', toStyle cfg.A ws_r st'))).foldl
-      (fun (m : SMap) e => SMap.insert m e.1 e.2.1 e.2.2) ([] : SMap) := by
-    simp only [Cfg.vmap, scanVariantMap, g.some_styles, g.no_plurals, hins]
-  have hkeys : ∀ k, k ∈ cfg.vmap.keys ↔ ∃ st' ∈ styles, k = toStyle cfg.A ws_s st' := by
-    intro k
-    rw [mem_keys, hvm, keys_foldl]
-    simp only [List.map_nil, List.not_mem_nil, false_or, List.mem_map]
-    constructor
-    · rintro ⟨e, ⟨st', hst', rfl⟩, rfl⟩; exact ⟨st', hst', rfl⟩
-    · rintro ⟨st', hst', rfl⟩; exact ⟨_, ⟨st', hst', rfl⟩, rfl⟩
-  have hxk : toStyle cfg.A ws_s st ∈ cfg.vmap.keys := (hkeys _).mpr ⟨st, g.enabled, rfl⟩
-  have hends : ∀ k ∈ cfg.vmap.keys, Ends k := by
-    intro k hk
-    obtain ⟨st', _, rfl⟩ := (hkeys k).mp hk
-    exact render_ends cfg.A hsne hws st'
-  have hget : cfg.vmap.get (toStyle cfg.A ws_s st) = some (toStyle cfg.A ws_r st) := by
-    apply get_of_entries
-    · rw [hvm, entries_foldl]
-      simp only [SMap.entries, List.lookup, Option.getD_none, List.nil_append, entriesOf, ne_eq, List.map_eq_nil_iff,
-        List.filter_eq_nil_iff, List.mem_map]
-      intro hall
-      exact hall _ ⟨st, g.enabled, rfl⟩ (by simp)
-    · intro e he
-      rw [hvm, entries_foldl] at he
-      simp only [SMap.entries, List.lookup, Option.getD_none, List.nil_append, entriesOf, List.mem_map,
-        List.mem_filter, beq_iff_eq] at he
-      obtain ⟨e', ⟨⟨st', _, rfl⟩, hk⟩, rfl⟩ := he
-      have := toStyle_inj cfg.A h2 hws g.visible hk.symm
-      subst this
-      rfl
   -- the exact pass
   have hexact := exact_pass_finds_occurrence hxk hends h1 hd2
   -- the replacement decision
@@ -277,19 +249,102 @@ theorem same_style_partial {cfg : Cfg} (hA : AcrOk cfg.A) (hS : AcrStable cfg.A)
   have hrepl : hunkReplacement cfg.A cfg.env cfg.vmap (d₁ ++ toStyle cfg.A ws_s st ++ d₂) (toStyle cfg.A ws_s st)
       cfg.replace = some (toStyle cfg.A ws_r st) := by
     unfold hunkReplacement baseReplacement
-    rw [variant_key_unambiguous h2 hws g.visible g.unambiguous]
+    rw [variant_key_unambiguous h2 hws hvis hun]
     simp only [Bool.false_eq_true, ↓reduceIte, hget, Option.map_some]
     rw [findSub_occurrence (by rw [hxc]; simp) hhead]
     simp only []
-    rw [coercion_none_on_exact_context g.coerce_ok h1 hd2 h95, hfix]
+    rw [coercion_none_on_exact_context hco h1 hd2 h95, hfix]
   -- assembling
   unfold rewriteLine lineHunks
-  simp only [g.not_skipped, Bool.false_eq_true, ↓reduceIte, hexact, exactHunks, hrepl, hcomp, List.map_nil,
+  simp only [hskip, Bool.false_eq_true, ↓reduceIte, hexact, exactHunks, hrepl, hcomp, List.map_nil,
     List.append_nil, List.mergeSort_singleton]
   rw [applyEdits_occurrence ⟨c, cs, hxc, hca⟩ (fun b hb => by
     rw [hrc] at hb
     simp only [List.head?_cons, Option.some.injEq] at hb
     subst hb; exact alpha_lt hca') hd2]
+
+
+theorem same_style_partial {cfg : Cfg} (hA : AcrOk cfg.A) (hS : AcrStable cfg.A) {ws_s ws_r : List Bytes}
+    {sst rst st : Style} {styles : List Style} {d₁ d₂ : Bytes}
+    (h2 : 2 ≤ ws_s.length) (hws : Words ws_s) (hwr : Words ws_r) (hrne : ws_r ≠ [])
+    (hNs : Neutral cfg.A ws_s) (hNr : Neutral cfg.A ws_r) (hsst : sst ∈ V12) (hrst : rst ∈ V12)
+    (hUs : sst ∈ upperStyles → UpperSafe cfg.A ws_s) (hUr : rst ∈ upperStyles → UpperSafe cfg.A ws_r)
+    (hsearch : cfg.search = toStyle cfg.A ws_s sst) (hreplace : cfg.replace = toStyle cfg.A ws_r rst)
+    (g : Guard cfg styles st) (h1 : NeutralDelim d₁) (hd2 : NeutralDelim d₂)
+    (hcomp : cfg.env.compound (d₁ ++ toStyle cfg.A ws_s st ++ d₂) = []) :
+    rewriteLine cfg (d₁ ++ toStyle cfg.A ws_s st ++ d₂) = some (d₁ ++ toStyle cfg.A ws_r st ++ d₂) := by
+  have hsne : ws_s ≠ [] := ne_nil_of_two h2
+  by_cases hpath : cfg.cliPath = true
+  · -- the CLI's table (case_model.rs)
+    have hm := cli_map_words hA hS h2 hws hwr hNs hNr hsst hrst hUs hUr styles cfg.sing cfg.plur g.enabled g.visible
+    have hvm : cfg.vmap = cliVariantMap cfg.A (some styles) false cfg.sing cfg.plur (toStyle cfg.A ws_s sst)
+        (toStyle cfg.A ws_r rst) := by
+      simp only [Cfg.vmap, hpath, ↓reduceIte, g.some_styles, g.no_plurals, hsearch, hreplace]
+    rw [← hvm] at hm
+    exact same_style_of_map h2 hws hwr hrne g.not_skipped g.visible g.unambiguous g.coerce_ok hm.2.1
+      (fun k hk => by obtain ⟨st', rfl⟩ := hm.1 k hk; exact render_ends cfg.A hsne hws st') hm.2.2 h1 hd2 hcomp
+  · -- the scanner's own table (core API without atomic configuration)
+    have hpath' : cfg.cliPath = false := by simpa using hpath
+    -- the variant map
+    have hins : variantInserts cfg.A (some styles) false cfg.sing cfg.plur cfg.search cfg.replace =
+        styles.map (fun st' => (toStyle cfg.A ws_s st', some st', toStyle cfg.A ws_r st')) := by
+      rw [hsearch, hreplace]
+      exact variantInserts_words hA hS hws hwr hNs hNr hsst hrst hUs hUr styles _ _
+    have hvm : cfg.vmap = (styles.map (fun st' => (toStyle cfg.A ws_s st', some st', toStyle cfg.A ws_r st'))).foldl
+        (fun (m : SMap) e => SMap.insert m e.1 e.2.1 e.2.2) ([] : SMap) := by
+      simp only [Cfg.vmap, hpath', Bool.false_eq_true, ↓reduceIte, scanVariantMap, g.some_styles, g.no_plurals, hins]
+    have hkeys : ∀ k, k ∈ cfg.vmap.keys ↔ ∃ st' ∈ styles, k = toStyle cfg.A ws_s st' := by
+      intro k
+      rw [mem_keys, hvm, keys_foldl]
+      simp only [List.map_nil, List.not_mem_nil, false_or, List.mem_map]
+      constructor
+      · rintro ⟨e, ⟨st', hst', rfl⟩, rfl⟩; exact ⟨st', hst', rfl⟩
+      · rintro ⟨st', hst', rfl⟩; exact ⟨_, ⟨st', hst', rfl⟩, rfl⟩
+    have hxk : toStyle cfg.A ws_s st ∈ cfg.vmap.keys := (hkeys _).mpr ⟨st, g.enabled, rfl⟩
+    have hends : ∀ k ∈ cfg.vmap.keys, Ends k := by
+      intro k hk
+      obtain ⟨st', _, rfl⟩ := (hkeys k).mp hk
+      exact render_ends cfg.A hsne hws st'
+    have hget : cfg.vmap.get (toStyle cfg.A ws_s st) = some (toStyle cfg.A ws_r st) := by
+      apply get_of_entries
+      · rw [hvm, entries_foldl]
+        simp only [SMap.entries, List.lookup, Option.getD_none, List.nil_append, entriesOf, ne_eq, List.map_eq_nil_iff,
+          List.filter_eq_nil_iff, List.mem_map]
+        intro hall
+        exact hall _ ⟨st, g.enabled, rfl⟩ (by simp)
+      · intro e he
+        rw [hvm, entries_foldl] at he
+        simp only [SMap.entries, List.lookup, Option.getD_none, List.nil_append, entriesOf, List.mem_map,
+          List.mem_filter, beq_iff_eq] at he
+        obtain ⟨e', ⟨⟨st', _, rfl⟩, hk⟩, rfl⟩ := he
+        have := toStyle_inj cfg.A h2 hws g.visible hk.symm
+        subst this
+        rfl
+    exact same_style_of_map h2 hws hwr hrne g.not_skipped g.visible g.unambiguous g.coerce_ok hxk hends hget h1 hd2 hcomp
+
+/-- the row of the search term AS TYPED is the same-style row, for ANY style the replacement was typed in (in particular
+    another style of the same separator family: `alpha_bravo → CHARLIE_DELTA` maps `alpha_bravo` to `charlie_delta`).
+    The CLI always passes an explicit style list, so the "exact casing" entry of `generate_variant_map_internal`
+    (`styles = None` only; C18 finding `exact_entry_override`) never takes part. -/
+theorem typed_row_same_style {A : Acr} (hA : AcrOk A) (hS : AcrStable A) {ws_s ws_r : List Bytes} {sst rst : Style}
+    (h2 : 2 ≤ ws_s.length) (hws : Words ws_s) (hwr : Words ws_r) (hNs : Neutral A ws_s) (hNr : Neutral A ws_r)
+    (hsst : sst ∈ V12) (hrst : rst ∈ V12)
+    (hUs : sst ∈ upperStyles → UpperSafe A ws_s) (hUr : rst ∈ upperStyles → UpperSafe A ws_r)
+    (styles : List Style) (sing plur : Bytes → Option Bytes) (hen : sst ∈ styles) :
+    (cliVariantMap A (some styles) false sing plur (toStyle A ws_s sst) (toStyle A ws_r rst)).get (toStyle A ws_s sst) =
+      some (toStyle A ws_r sst) :=
+  (cli_map_words hA hS h2 hws hwr hNs hNr hsst hrst hUs hUr styles sing plur hen hsst).2.2
+
+/-- … kernel-evaluated on the four separator families, on both variant-table paths (CLI / core API) -/
+theorem typed_row_same_style_families :
+    rewriteLine (cfg0 {} b!"alpha_gamma" b!"TIGER_LEMON") b!"alpha_gamma\n" = some b!"tiger_lemon\n" ∧
+    rewriteLine (cfg0 {} b!"ALPHA_GAMMA" b!"tiger_lemon") b!"ALPHA_GAMMA\n" = some b!"TIGER_LEMON\n" ∧
+    rewriteLine (cfg0 {} b!"alphaGamma" b!"TigerLemon") b!"alphaGamma\n" = some b!"tigerLemon\n" ∧
+    rewriteLine (cfg0 {} b!"alpha-gamma" b!"Tiger-Lemon") b!"alpha-gamma\n" = some b!"tiger-lemon\n" ∧
+    rewriteLine (cfg0 {} b!"Alpha Gamma" b!"tiger lemon") b!"Alpha Gamma\n" = some b!"Tiger Lemon\n" ∧
+    rewriteLine (cfgApi {} b!"alpha_gamma" b!"TIGER_LEMON") b!"alpha_gamma\n" = some b!"tiger_lemon\n" ∧
+    rewriteLine (cfgApi {} b!"Alpha Gamma" b!"tiger lemon") b!"Alpha Gamma\n" = some b!"Tiger Lemon\n" := by
+  decide +kernel
 
 /-- non-vacuity of the guard: the default option set, Train-Case occurrence -/
 example : Guard (cfg0 {} b!"foo_bar" b!"baz_qux") Gen.defaultStyles .train :=
